@@ -22,7 +22,7 @@ struct Sub {
 };
 inline pt::PortsProxy Sub::ports;
 struct Root {
-  int preset = 0; int ri = 0, rj = 0; float rf = 0; bool rt = false; int ro = 0; char rc = 0; char rs[16] = {0}; int ra[12] = {0}; float rfa[4] = {0, 0, 0, 0}; bool en = true; bool vp[3] = {false, false, false}; int32_t rb[8] = {0};
+  int preset = 0; int ri = 0, rj = 0; float rf = 0; bool rt = false; int ro = 0; char rc = 0; char rs[200] = {0}; int ra[12] = {0}; float rfa[4] = {0, 0, 0, 0}; bool en = true; bool vp[3] = {false, false, false}; int32_t rb[8] = {0};
   Sub sub; Sub *psub = nullptr; Sub subs[3];
 };
 
@@ -197,7 +197,7 @@ inline cb_t field_cb(int f) {
     case RT: return rToggleCb(rt);
     case RO: return rOptionCb(ro);
     case RC: return rParamCb(rc);
-    case RS: return rStringCb(rs, 16);
+    case RS: return rStringCb(rs, 200);
     case RA: return rArrayICb(ra);
     case RFA: return rArrayFCb(rfa);
     case EN: return rToggleCb(en);
@@ -245,7 +245,7 @@ inline Val get_root(const Root &r, int f) {
 inline void set_root(Root &r, int f, const Val &v) {
   switch (f) {
     case PRESET: r.preset = (int)v.i; break; case RI: r.ri = (int)v.i; break; case RJ: r.rj = (int)v.i; break; case RF: r.rf = (float)v.f; break; case RT: r.rt = v.i != 0; break; case RO: r.ro = (int)v.i; break;
-    case RC: r.rc = (char)v.i; break; case RS: memset(r.rs, 0, 16); memcpy(r.rs, v.s.data(), std::min<size_t>(15, v.s.size())); break;
+    case RC: r.rc = (char)v.i; break; case RS: memset(r.rs, 0, 200); memcpy(r.rs, v.s.data(), std::min<size_t>(199, v.s.size())); break;
     case RA: for (size_t k = 0; k < 12; k++) r.ra[k] = k < v.ai.size() ? (int)v.ai[k] : 0; break; case RFA: for (int k = 0; k < 4; k++) r.rfa[k] = (float)v.af[(size_t)k]; break; case EN: r.en = v.i != 0; break; case VP: for (size_t k = 0; k < 3 && k < v.ai.size(); k++) r.vp[k] = v.ai[k] != 0; break; case RB: for (size_t k = 0; k < 8; k++) r.rb[k] = k < v.ai.size() ? (int32_t)v.ai[k] : 0; break;
   }
 }
@@ -314,6 +314,13 @@ struct App {
     for (auto &p : spec.root) if (p.has_default && p.field != PRESET) set_root(root, p.field, p.default_for(root.preset));
     for (Sub *s : subs()) for (auto &p : spec.sub) if (p.has_default) set_sub(*s, p.field, p.dflt[0]);
   }
+  // back to the state of a newly constructed instance (same objects, same port tables)
+  void reset_all() {
+    root = Root();
+    psub_obj = Sub();
+    if (spec.has_psub && !spec.psub_null) root.psub = &psub_obj;
+    reset_to_defaults();
+  }
   // application semantics: a new preset resets every parameter whose default depends on it
   // and a parameter that declares rDepends(x) is reset when x changes (transitively)
   void on_changed(const char *loc) {
@@ -364,6 +371,7 @@ inline Val gen_val(int f, const PSpec &p) {
     case K_STR: {
       static const std::string AL = "abcXYZ 09\"\\%\n\t/[]#.'";
       int n = vf::sized<int>(0, 15);
+      if (f == RS && vf::chance(25)) n = vf::pick<int>(60, 190);   // long enough for the savefile to wrap the line (escapes then land on every column)
       for (int k = 0; k < n; k++) v.s += vf::chance(70) ? (char)vf::pick<int>('a', 'z') : AL[(size_t)vf::pickn((int)AL.size())];
       break;
     }
@@ -420,21 +428,23 @@ inline PSpec gen_pspec(int f, bool may_depend) {
 }
 inline AppSpec gen_spec() {
   AppSpec s;
-  bool presets = vf::chance(60);
+  const bool rich = vf::chance(8);   // an application with every kind of parameter and every kind of sub-tree (savefiles of 40..70 lines)
+  auto maybe = [&](int pct) { return rich || vf::chance(pct); };
+  bool presets = maybe(60);
   if (presets) { PSpec p; p.field = PRESET; p.has_range = true; p.mn = 0; p.mx = 2; p.has_default = true; p.has_preset.assign(3, 0); Val d; d.i = vf::pickn(3); p.dflt.assign(4, d); s.root.push_back(p); }
-  for (int f = RI; f < EN; f++) if (vf::chance(55)) s.root.push_back(gen_pspec(f, presets));
-  if (vf::chance(35)) s.root.push_back(gen_pspec(VP, false));
-  if (vf::chance(30)) s.root.push_back(gen_pspec(RB, presets));
-  s.has_sub = vf::chance(75); s.has_psub = vf::chance(40); s.has_subs = vf::chance(40); s.psub_null = vf::chance(40);
+  for (int f = RI; f < EN; f++) if (maybe(55)) s.root.push_back(gen_pspec(f, presets));
+  if (maybe(35)) s.root.push_back(gen_pspec(VP, false));
+  if (maybe(30)) s.root.push_back(gen_pspec(RB, presets));
+  s.has_sub = maybe(75); s.has_psub = maybe(40); s.has_subs = maybe(40); s.psub_null = !rich && vf::chance(40);
   bool en = (s.has_sub || s.has_psub || s.has_subs) && vf::chance(50);
   if (en) {
     PSpec p; p.field = EN; p.has_default = true; p.has_preset.assign(3, 0); Val d; d.i = vf::chance(70); p.dflt.assign(4, d);
     s.root.insert(s.root.begin() + vf::pickn((int)s.root.size() + 1), p);
     s.sub_en_by = s.has_sub && vf::chance(70); s.psub_en_by = s.has_psub && vf::chance(50); s.subs_en_by = s.has_subs && vf::chance(50);
   }
-  for (int f = SI; f < ON; f++) if (vf::chance(60)) s.sub.push_back(gen_pspec(f, false));
-  if (vf::chance(40)) s.sub.push_back(gen_pspec(SJ, false));
-  if (vf::chance(30)) s.sub.push_back(gen_pspec(SV, false));   // 'sv#3/on' inside the sub-trees: a name spanning two components below an enabled-by level
+  for (int f = SI; f < ON; f++) if (maybe(60)) s.sub.push_back(gen_pspec(f, false));
+  if (maybe(40)) s.sub.push_back(gen_pspec(SJ, false));
+  if (maybe(30)) s.sub.push_back(gen_pspec(SV, false));   // 'sv#3/on' inside the sub-trees: a name spanning two components below an enabled-by level
   s.self_on = vf::chance(35);
   if (s.self_on) { PSpec p; p.field = ON; p.has_default = true; p.has_preset.assign(3, 0); Val d; d.i = vf::chance(75); p.dflt.assign(4, d); s.sub.insert(s.sub.begin() + vf::pickn((int)s.sub.size() + 1), p); }
   s.ptr_port = s.has_sub && vf::chance(40);
@@ -488,6 +498,16 @@ inline std::vector<Set> gen_history(const AppSpec &spec, int maxlen) {
   if (spec.has_sub) targets.push_back(1);
   if (spec.has_psub && !spec.psub_null) targets.push_back(2);
   if (spec.has_subs) { targets.push_back(3); targets.push_back(4); targets.push_back(5); }
+  if (maxlen >= 10 && vf::chance(spec.root.size() >= 11 ? 70 : 8)) {
+    // a wide history: every parameter of every object is set once (savefiles of 30..70 lines)
+    for (int t : targets)
+      for (auto &p : (t == 0 ? spec.root : spec.sub)) {
+        Set s; s.target = t; s.field = p.field; s.v = gen_val(p.field, p); s.idx = gen_idx(p.field); s.by_symbol = vf::coin();
+        h.push_back(s);
+        if (kind_of(p.field) == K_ABOOL) for (int k = 0; k < 3; k++) { s.idx = k; h.push_back(s); }   // every element is a line of its own
+      }
+    for (size_t i = h.size(); i > 1; i--) std::swap(h[i - 1], h[(size_t)vf::pickn((int)i)]);
+  }
   for (int i = 0; i < n; i++) {
     Set s;
     s.target = targets[(size_t)vf::pickn((int)targets.size())];
